@@ -46,9 +46,10 @@ def configurations():
 class Tables(object):
     """Context manager installing a synthetic level-1 column + pattern."""
 
-    def __init__(self, restrictions, pattern):
+    def __init__(self, restrictions, pattern, more_columns=()):
         self.restrictions = restrictions
         self.pattern = pattern
+        self.more_columns = more_columns  # further columns of the same level: [[(key, values)...], ...]
 
     def __enter__(self):
         from vc2_conformance.level_constraints import LEVEL_CONSTRAINTS, LEVEL_SEQUENCE_RESTRICTIONS, LevelSequenceRestrictions
@@ -64,6 +65,12 @@ class Tables(object):
             row[k] = ValueSet(*vals)
         del LEVEL_CONSTRAINTS[:]
         LEVEL_CONSTRAINTS.append(row)
+        for col in self.more_columns:
+            row2 = {k: AnyValue() for k in keys}
+            row2["level"] = ValueSet(1)
+            for k, vals in col:
+                row2[k] = ValueSet(*vals)
+            LEVEL_CONSTRAINTS.append(row2)
         if self.pattern is not None:
             LEVEL_SEQUENCE_RESTRICTIONS[Levels(1)] = LevelSequenceRestrictions(sequence_restriction_explanation="verif synthetic", sequence_restriction_regex=self.pattern)
         return self
@@ -82,6 +89,15 @@ def encode_and_validate(cname, kw):
     from vc2_conformance.encoder.exceptions import UnsatisfiableCodecFeaturesError
 
     kw = dict(kw)
+    if "like_base" in kw:
+        # the video parameters of a real base format, shrunk to 16x8, with a chosen frame rate
+        from vc2_data_tables import BaseVideoFormats
+        from vc2_conformance.pseudocode.video_parameters import set_source_defaults
+
+        vp = set_source_defaults(BaseVideoFormats(kw.pop("like_base")))
+        vp.update(frame_width=16, frame_height=8, clean_width=16, clean_height=8, left_offset=0, top_offset=0)
+        vp["frame_rate_numer"], vp["frame_rate_denom"] = kw.pop("rate")
+        kw["vp"] = vp
     if kw.get("quantization_matrix") == "explicit-default":
         from vc2_data_tables import QUANTISATION_MATRICES
 
@@ -204,10 +220,105 @@ def all_cases(tier):
             for a, b in itertools.combinations(rs, 2):
                 if a[0] != b[0] and (a, b) not in seen_pairs:
                     cases.append((cname, (a, b), 0))
+    cases += twocol_cases(tier)
+    cases += hist_cases(tier)
     return cases
 
 
+# Two columns of one level that admit different base video formats with different frame-rate rules
+# (the shape of the real level 64): whichever (base format, column) the encoder picks, the
+# validator -- which selects the column by the coded base format -- must agree.
+TWOCOL_BASES = (13, 14, 9, 10)  # hd1080p_60, hd1080p_50, hd720p_60, hd720p_50
+TWOCOL_RATES = ((60, 1), (50, 1), (60000, 1001), (25, 1))
+TWOCOL_RULES = {
+    "any": [],
+    "no-override": [("custom_frame_rate_flag", (False,)), ("frame_rate_index", ()), ("frame_rate_numer", ()), ("frame_rate_denom", ())],
+    "preset-60": [("custom_frame_rate_flag", (False, True)), ("frame_rate_index", (8,)), ("frame_rate_numer", ()), ("frame_rate_denom", ())],
+    "preset-50": [("custom_frame_rate_flag", (False, True)), ("frame_rate_index", (6,)), ("frame_rate_numer", ()), ("frame_rate_denom", ())],
+    "must-override-custom": [("custom_frame_rate_flag", (True,)), ("frame_rate_index", (0,))],
+}
+
+
+def twocol_cases(tier):
+    out = []
+    likes = TWOCOL_BASES[:2] if tier != "thorough" else TWOCOL_BASES
+    for like in likes:
+        for rate in TWOCOL_RATES:
+            for x in TWOCOL_BASES:
+                for y in TWOCOL_BASES:
+                    if x == y:
+                        continue
+                    for ra in sorted(TWOCOL_RULES):
+                        for rb in sorted(TWOCOL_RULES):
+                            out.append(("twocol", like, rate, (x, ra), (y, rb)))
+    return out
+
+
+def run_twocol(case):
+    _, like, rate, (x, ra), (y, rb) = case
+    col_a = [("base_video_format", (x,))] + TWOCOL_RULES[ra]
+    col_b = [("base_video_format", (y,))] + TWOCOL_RULES[rb]
+    with Tables(col_a, ".*", more_columns=[col_b]):
+        label, problem, _ = encode_and_validate("twocol", dict(like_base=like, rate=tuple(rate)))
+    return label, problem
+
+
+# Two configurations encoded one after the other in the same process under one level
+# definition: nothing learnt about the first may leak into the second.
+HIST_RESTRICTIONS = (
+    (("slices_have_same_dimensions", (True,)),),
+    (("slices_have_same_dimensions", (False,)),),
+    (("custom_quant_matrix", (False,)),),
+    (("custom_quant_matrix", (True,)),),
+)
+
+
+def hist_pool():
+    out = []
+    for pcm in (0, 1):
+        for h in (8, 12):
+            for sy in (1, 2, 3):
+                for dd in (1, 2):
+                    for qm in ("auto", "custom"):
+                        out.append(dict(picture_coding_mode=pcm, source_sampling=pcm, frame_width=8, frame_height=h, slices_x=2, slices_y=sy, wavelet_index=1, dwt_depth=dd, quantization_matrix=qm))
+    return out
+
+
+def hist_cases(tier):
+    out = []
+    n = len(hist_pool())
+    for ri in range(len(HIST_RESTRICTIONS)):
+        for i in range(n):
+            for j in range(n):
+                if i == j:
+                    continue
+                a, b = hist_pool()[i], hist_pool()[j]
+                ndiff = sum(1 for k in a if a[k] != b[k])
+                if ndiff > (1 if tier != "thorough" else 2):
+                    continue  # histories of configurations differing in one field (thorough: two)
+                out.append(("hist", ri, i, j))
+    return out
+
+
+def run_hist(case):
+    _, ri, i, j = case
+    labels = []
+    with Tables([(k, tuple(v)) for k, v in HIST_RESTRICTIONS[ri]], ".*"):
+        for step, idx in enumerate((i, j)):
+            label, problem, _ = encode_and_validate("hist", hist_pool()[idx])
+            labels.append(label)
+            if problem:
+                return "+".join(labels), "step %d (%r): %s" % (step, hist_pool()[idx], problem)
+            if label.startswith("known-F8"):
+                return label, None
+    return "+".join(l.split(":")[0] for l in labels), None
+
+
 def run_case(case):
+    if case[0] == "twocol":
+        return run_twocol(case)
+    if case[0] == "hist":
+        return run_hist(case)
     cname, rs, pi = case
     kw = dict(configurations())[cname]
     with Tables([(k, tuple(v)) for k, v in rs], PATTERNS[pi]):
@@ -227,7 +338,9 @@ def _shard(arg):
         elif label.startswith("known-F8"):
             t.known_finding("F8", {"case": case, "key": label.split(":")[1]})
         else:
-            t.distinct("outcomes", (case[0], case[1], label.split(":")[0]))
+            t.distinct("outcomes", (case, label.split(":")[0]) if case[0] in ("twocol", "hist") else (case[0], case[1], label.split(":")[0]))
+            if case[0] in ("twocol", "hist"):
+                t.outcome(case[0] + "_outcome", label.split(":")[0])
             t.sample(label.split(":")[0], case)
     return t
 
@@ -247,12 +360,18 @@ def run(ctx):
         "distinct_nontrivial": total.ndistinct("outcomes"),
         "rule": "every synthetic level definition (restrictions x ordering pattern) x configuration is installed in-process, the real encoder is run, and any stream it returns is validated under the same definition; non-trivial = distinct (configuration, restriction set, outcome kind)",
         "exhaustive": True,
-        "bounds": {"cases": len(cases), "configurations": [c for c, _ in configurations()], "patterns": [p or "<real level 1 pattern>" for p in PATTERNS], "restriction_arity": 1 if ctx.quick else 2},
+        "bounds": {"cases": len(cases), "configurations": [c for c, _ in configurations()], "patterns": [p or "<real level 1 pattern>" for p in PATTERNS], "restriction_arity": 1 if ctx.quick else 2,
+            "two_step_histories": "%d histories: ordered pairs of configurations from a pool of %d (coding mode x height x slices_y x depth x matrix) differing in %s, encoded one after the other in one process under each of %r" % (len(hist_cases(ctx.tier)), len(hist_pool()), "one field" if ctx.quick else "one or two fields", [r[0] for r in HIST_RESTRICTIONS]),
+            "two_column_levels": "%d definitions: two columns admitting different base formats from %r, each with a frame-rate rule from %r, x formats like %s at 16x8 with frame rates %r" % (len(twocol_cases(ctx.tier)), TWOCOL_BASES, sorted(TWOCOL_RULES), "13, 14" if ctx.quick else "each of them", TWOCOL_RATES)},
     }
     return total, cov
 
 
 def replay_case(case):
     c = case["case"]
+    if c[0] == "hist":
+        return [p for p in [run_hist(tuple(c))[1]] if p]
+    if c[0] == "twocol":
+        return [p for p in [run_twocol(("twocol", c[1], tuple(c[2]), tuple(c[3]), tuple(c[4])))[1]] if p]
     rs = tuple((r[0], tuple(r[1])) for r in c[1])
     return [p for p in [run_case((c[0], rs, c[2]))[1]] if p]
